@@ -43,6 +43,9 @@ type saoWorld struct {
 	longRun   bool
 	exportEvery int
 	grants      map[string]*owner // data id -> read-write grantee
+	scarce       bool             // only two providers accept orders: selections run out of candidates
+	silent       *Account         // a provider that never completes anything (scarce worlds)
+	granteeWrote []string         // models whose latest accepted update was signed by their grantee
 }
 
 func (w *saoWorld) newDataId() string {
@@ -92,7 +95,14 @@ func (w *saoWorld) setup(accts []*Account) {
 	}
 	r.EndBlock()
 	r.BeginBlock()
+	w.scarce = w.rng.Intn(4) == 0
+	if w.scarce && w.rng.Intn(3) != 0 {
+		w.silent = w.providers[1]
+	}
 	for i, p := range w.providers {
+		if w.scarce && i >= 2 {
+			continue
+		}
 		r.NodeReset(p, "", 13, "", nil)
 		size := uint64(50000000 + 10000000*i)
 		if i == 5 {
@@ -243,7 +253,7 @@ func (w *saoWorld) completeSome(mut string) {
 			continue // silent
 		}
 		sp := w.acctByAddr(sh.Sp)
-		if sp == nil {
+		if sp == nil || (sp == w.silent && mut == "") {
 			continue
 		}
 		// the order that lists the shard (for a migrating shard: the order whose list it was appended to)
@@ -306,8 +316,10 @@ func (w *saoWorld) update(mut string) {
 		op = 2
 	}
 	signerOwner := o
-	if g, ok := w.grants[dataId]; ok && mut == "" && rng.Intn(3) == 0 {
+	byGrantee := false
+	if g, ok := w.grants[dataId]; ok && mut == "" && rng.Intn(2) == 0 {
 		signerOwner = g // a read-write grantee may update the content
+		byGrantee = true
 	}
 	switch mut {
 	case "stale-base":
@@ -327,7 +339,10 @@ func (w *saoWorld) update(mut string) {
 	}
 	p := w.proposal(signerOwner, gw, dataId, commitId, op, uint64(500000+rng.Intn(3)*500000), int32(1+rng.Intn(2)), []uint64{3600, 7200}[rng.Intn(2)], 50)
 	jws := SignJWS(&p, signerOwner.key, signerOwner.kid)
-	w.r.Store(gw, &saotypes.MsgStore{Creator: gw.Bech(), Proposal: p, JwsSignature: jws, Provider: gw.Bech()})
+	res := w.r.Store(gw, &saotypes.MsgStore{Creator: gw.Bech(), Proposal: p, JwsSignature: jws, Provider: gw.Bech()})
+	if byGrantee && res.Class == "ok" {
+		w.granteeWrote = append(w.granteeWrote, dataId)
+	}
 }
 
 func (w *saoWorld) renew(mut string) {
@@ -336,6 +351,10 @@ func (w *saoWorld) renew(mut string) {
 		return
 	}
 	dataId := w.models[rng.Intn(len(w.models))]
+	if mut == "grantee" && len(w.granteeWrote) > 0 && rng.Intn(3) != 0 {
+		// the interesting case: the model's latest order was placed by the grantee
+		dataId = w.granteeWrote[rng.Intn(len(w.granteeWrote))]
+	}
 	ownerDid, _, _, ok := w.latestMeta(dataId)
 	if !ok {
 		return
